@@ -76,6 +76,16 @@ theorem fromMontgomery_correct {a : L4} (ha : a.ok) :
 theorem toMontgomery_correct {x : L4} (hx : x.ok) :
     limbOk (FiatField.toMontgomery x) ∧ limbVal (FiatField.toMontgomery x) = (x.eval : ZMod P) := limb_toMont hx
 
+/-- the method wrappers of `internal/field/element.go` (regenerated from their Go bodies on every run) are the fields of the
+operations record all of the above is stated about -/
+theorem method_wrappers_tied (c : Nat) (e u v : L4) :
+    FiatField.elOne = Hand.limbOps.one ∧ FiatField.elAdd u v = Hand.limbOps.add u v ∧
+    FiatField.elSubtract u v = Hand.limbOps.sub u v ∧ FiatField.elMultiply u v = Hand.limbOps.mul u v ∧
+    FiatField.elNegate u = Hand.limbOps.neg u ∧ FiatField.elSquare u = Hand.limbOps.square u ∧
+    FiatField.elSgn0 e = Hand.limbOps.sgn0 e ∧ FiatField.elCMove c u v = Hand.limbOps.cmove c u v ∧
+    FiatField.elIsZero e = Hand.limbOps.isZero e ∧ FiatField.equals e u = Hand.limbOps.equals e u :=
+  ⟨rfl, rfl, rfl, rfl, rfl, rfl, rfl, rfl, rfl, rfl⟩
+
 /-- summary: the limb implementation is a lawful implementation of the field `ZMod p` -/
 noncomputable def lawful : Lawful Hand.limbOps (ZMod P) := limbLawful
 
